@@ -164,6 +164,6 @@ claim("C11", "path rules on MIR: must-pass-through inside loops, control depende
       "(over the whole rewritten list, or per node with failing nodes left intact); a break point adds a trailing comma only where the written "
       "one is dropped; the optional `;` after a block-like statement is dropped only on the word of the parser's post-operator table applied "
       "to the first token of the next statement." + DECIDES +
-      " No token kind that the no-space rules make tight whatever its context can be joined with a neighbour into another token (spellings from the lexer's dispatch, maximal munch; seven such joins inside macro token trees are known findings); kinds that are tight only under a condition on their parents and word-like tokens are not covered. Idempotence and re-parsability of the output (line-breaking search) are not decided.",
+      " No token kind that the no-space rules make tight whatever its context can be joined with a neighbour into another token (spellings from the lexer's dispatch, maximal munch; eight such joins inside macro token trees are known findings); conditions on the parent kinds are evaluated for the position of a token in a token tree; word-like tokens are not covered. Idempotence and re-parsability of the output (line-breaking search) are not decided.",
       "trusted: rustc MIR, fact dumper; assumes LineBuilder::push_str/push_comment append their argument",
       "DESIGN.md section 4, C11")
